@@ -83,9 +83,9 @@ def show_index(idx):
         if k == 'B':
             return str([bool(v) for v in it[1]])
         if k == 'A':
-            return f'np.array({list(it[1])})'
+            return f'np.array({list(it[1])}, dtype=int)'
         if k == 'M':
-            return f'np.array({[bool(v) for v in it[1]]})'
+            return f'np.array({[bool(v) for v in it[1]]}, dtype=bool)'
         return 'np.newaxis' if k == 'n' else '...'
     body = ', '.join(s(i) for i in idx['items'])
     return f'[{body}]' if idx['t'] == 'one' or len(idx['items']) != 1 else f'[{body},]'
